@@ -146,6 +146,7 @@ func ruleR26() *Rule {
 		Props: []string{"C02", "C05", "C06", "C03", "C13", "C04"},
 		Floor: floorFor("R26"),
 		Run: func(c *RuleCtx) {
+			r26StaleSegmentState(c)
 			// (function, ranged parameter) pairs that the properties quantify over "every element of"
 			type target struct {
 				typ, fn, param string
@@ -1836,6 +1837,12 @@ func ruleR4() *Rule {
 					return true
 				case *ssa.Alloc:
 					return isNamed(x.Type(), zapPkgPath, "docValueReader")
+				case *ssa.Parameter:
+					// inside cloneInto, the destination it is handed is the clone being (re)built: shared
+					// readers only ever reach cloneInto as its receiver (checked below)
+					if x.Parent() == clone && len(clone.Params) == 2 && x == clone.Params[1] {
+						return true
+					}
 				}
 				return false
 			}
@@ -2079,6 +2086,11 @@ func ruleR3() *Rule {
 						}
 						if frozenExempt[sn+"."+fld] != "" {
 							return
+						}
+						for _, d := range discoveredGuards(p) {
+							if d.Struct == sn && d.Field == fld {
+								return // lazily filled under the struct's mutex: R2 holds every access to it
+							}
 						}
 						if al := baseAlloc(base); al != nil && al.Parent() == fn {
 							return // composite literal of a segment under construction
